@@ -72,6 +72,11 @@ func (c *caseOrderChecker) checkTypeSwitch(s *ast.TypeSwitchStmt) {
 					break
 				}
 			}
+			if _, ok := types.Unalias(typ).(*types.TypeParam); ok {
+				// `case T` matches only the type T is instantiated with,
+				// not every type of T's constraint (its underlying type).
+				continue
+			}
 			if iface, ok := typ.Underlying().(*types.Interface); ok {
 				ifaces = append(ifaces, ifaceType{node: x, typ: iface})
 			}
